@@ -13,6 +13,8 @@ package pq
 //@ spec func qCtx(q Ref, i Int) any
 
 //@ iface PriorityQueueI.Next
+//@   // (an exhausted queue stays exhausted: the concrete queue answers Done when its size is 0, and the size never grows)
+//@   ensures [done-is-sticky] old(qPos(this)) > 0 && errIs(qErr(this, old(qPos(this)) - 1), Done) ==> errIs(r3, Done)
 //@   ensures [step] qPos(this) == old(qPos(this)) + 1
 //@   ensures [err] r3 == qErr(this, old(qPos(this)))
 //@   ensures [kv] r3 == nil ==> r0 === qKey(this, old(qPos(this))) && r1 === qVal(this, old(qPos(this))) && r2 == qCtx(this, old(qPos(this)))
